@@ -258,9 +258,21 @@ def c20_oracle(rec, dh, sub, mp, limit, coords, ref, rb):
                              "shape %s, level header declares %s" % (getattr(a2, "shape", None), want.shape))
                 elif a2.tobytes() != np.ascontiguousarray(want).tobytes():
                     rec.fail("accepted_but_wrong_values", dict(sub, level=lv, box=b, selector=str(sel)), "selector forms disagree")
+        # box selectors that name several boxes: a cyclic rotation (a 3-cycle with three boxes), a reversed slice, a mask
+        nbx = len(pck.cells[lv]["indexes"])
+        rot = list(range(1, nbx)) + [0]
+        for bsel, ids in ((rot, rot), (slice(None, None, -1), list(range(nbx))[::-1]),
+                          ([bool((i + 1) % 2) for i in range(nbx)], [i for i in range(nbx) if (i + 1) % 2])):
+            with vpool.controlled():
+                st4, v4 = call(lambda: (list(pck[:][lv][bsel]), [pck[:][lv][i] for i in ids]))
+            if st4 == "exc":
+                rec.fail("accepted_but_unreadable", dict(sub, level=lv, box_selector=str(bsel)), exc_text(v4))
+            elif len(v4[0]) != len(ids) or not all(isinstance(x, np.ndarray) and isinstance(y, np.ndarray) and x.shape == y.shape
+                                                    and x.tobytes() == y.tobytes() for x, y in zip(*v4)):
+                rec.fail("accepted_but_wrong_values", dict(sub, level=lv, box_selector=str(bsel)),
+                         "boxes read through a multi-box selector are not the boxes it names, in its order")
         # one stream object read box after box (list selector not starting at field 0)
         if nf >= 2:
-            nbx = len(pck.cells[lv]["indexes"])
             with vpool.controlled():
                 def stream():
                     s_ = pck[list(range(1, nf))][lv]
